@@ -172,7 +172,32 @@ func runC07(r *Run) {
 			// ---- marshal a Go value
 			var v interface{}
 			what := ""
-			switch rng.Intn(9) {
+			switch rng.Intn(14) {
+			case 9:
+				n := &c07Cyclic{Name: "a"}
+				n.Self = n
+				v, what = n, "cyclic-pointer"
+			case 10:
+				l := []interface{}{1, nil}
+				l[1] = l
+				v, what = l, "cyclic-slice"
+			case 11:
+				m := map[string]interface{}{"a": 1}
+				m["self"] = m
+				v, what = m, "cyclic-map"
+			case 12:
+				// two nodes pointing at each other through an interface field
+				a, b := &c07Mixed{A: 1}, &c07Mixed{A: 2}
+				a.D, b.D = b, a
+				a.C = map[string]interface{}{"b": b}
+				v, what = a, "cyclic-mutual"
+			case 13:
+				// not cyclic, only deep: a linked list of 100 .. 5000 nodes
+				var head *c07Cyclic
+				for i := []int{100, 999, 1001, 5000}[rng.Intn(4)]; i > 0; i-- {
+					head = &c07Cyclic{Name: "n", Self: head}
+				}
+				v, what = head, "deep-list"
 			case 0:
 				v, what = make(chan int), "chan"
 			case 1:
@@ -194,6 +219,10 @@ func runC07(r *Run) {
 				tg := NewTyGen(rng, "all")
 				ty := tg.GenType(2)
 				v, what = tg.GenValue(ty, 2).Interface(), "generated "+ty.String()
+			}
+			if rng.P(1, 3) {
+				cfg.Iterator.RecursionSupport = true
+				what += " (recursion support)"
 			}
 			r.out.Case("marshal "+what, true)
 			r.out.Count("marshal:" + strings.Fields(what)[0])
